@@ -66,6 +66,7 @@ type frame struct {
 	cells  map[*ssa.Alloc]bool
 	stack  []*ssa.Function
 	iters  map[ssa.Value]*Val
+	provingInv bool
 }
 
 func (vc *VC) newFrame(fn *ssa.Function, depth int, top bool, stack []*ssa.Function) *frame {
@@ -965,7 +966,7 @@ func (fr *frame) execUnOp(st *State, in *ssa.UnOp) {
 			if signed {
 				fr.setT(in, vc.iSub(vc.iNeg(x), IntLit64(1)))
 			} else {
-				fr.setT(in, vc.iSub(IntLit(new(big.Int).Sub(pow2(w), big.NewInt(1))), x))
+				fr.setT(in, vc.bnotTerm(x, w))
 			}
 		}
 	default:
@@ -1011,8 +1012,12 @@ func (fr *frame) execBinOp(st *State, in *ssa.BinOp) {
 			r = vc.bitop("andnot", x, y, xt)
 		case token.EQL:
 			r = Eq(x, y)
+			vc.nonZeroWitness(x, xt)
+			vc.nonZeroWitness(y, xt)
 		case token.NEQ:
 			r = Not(Eq(x, y))
+			vc.nonZeroWitness(x, xt)
+			vc.nonZeroWitness(y, xt)
 		case token.LSS:
 			r = vc.iCmp("<", x, y, signed)
 		case token.LEQ:
@@ -1145,6 +1150,24 @@ func (vc *VC) bitop(op string, x, y *Term, t types.Type) *Term {
 	}
 	xv, xok := intLitVal(x)
 	yv, yok := intLitVal(y)
+	if w, uns := isUnsignedType(t); uns && !(xok && yok) {
+		vc.bitTheory()
+		if xok {
+			vc.constBits(xv, w)
+		}
+		if yok {
+			vc.constBits(yv, w)
+		}
+		// x & 1 is the low bit
+		if op == "and" && yok && yv.Cmp(bigOne) == 0 {
+			if x.Op == "bshr" && len(x.Args) == 2 {
+				return Ite(vc.wbit(x.Args[0], x.Args[1]), IntLit64(1), IntLit64(0))
+			}
+			return Ite(vc.wbit(x, IntLit64(0)), IntLit64(1), IntLit64(0))
+		}
+		name := map[string]string{"and": "band", "or": "bor", "xor": "bxor", "andnot": "bandnot"}[op]
+		return App(name, SInt, x, y)
+	}
 	if xok && yok {
 		switch op {
 		case "and":
@@ -1210,6 +1233,18 @@ func (vc *VC) shift(st *State, op token.Token, x, y *Term, xt, yt types.Type, po
 			return App("bvashr", x.S, x, c)
 		}
 		return App("bvlshr", x.S, x, c)
+	}
+	if !xs {
+		if _, lit := intLitVal(y); !lit {
+			vc.bitTheory()
+			if xv, ok := intLitVal(x); ok {
+				vc.constBits(xv, xw)
+			}
+			if op == token.SHL {
+				return App("bshl", SInt, IntLit64(int64(xw)), x, y)
+			}
+			return App("bshr", SInt, x, y)
+		}
 	}
 	if yv, ok := intLitVal(y); ok && yv.IsInt64() && yv.Int64() >= 0 && yv.Int64() < 256 {
 		k := int(yv.Int64())
@@ -1532,4 +1567,16 @@ func (fr *frame) execNext(st *State, in *ssa.Next) {
 	}
 	vc.assumed["range over map modelled as arbitrary entries (termination not modelled)"] = true
 	fr.vals[in] = &Val{Tuple: []*Val{{T: ok, Go: types.Typ[types.Bool]}, kv, vv}}
+}
+
+// bnotTerm: complement of an unsigned w-bit value in int mode, tied to both arithmetic and the bit theory.
+func (vc *VC) bnotTerm(x *Term, w int) *Term {
+	vc.bitTheory()
+	r := App("bnot", SInt, IntLit64(int64(w)), x)
+	key := "bnot:" + r.String()
+	if !vc.declSeen[key] && !mentionsBound(x) {
+		vc.declSeen[key] = true
+		vc.facts = append(vc.facts, Eq(r, vc.iSub(IntLit(new(big.Int).Sub(pow2(w), big.NewInt(1))), x)))
+	}
+	return r
 }
